@@ -171,6 +171,10 @@ int charArrLen(char **names, int n) { Guard g; int t = 0; for (int i = 0; i < n;
 Item &refItem() { Guard g; return *borrowItem(); }
 std::vector<double> vecRetD(int n) { Guard g; std::vector<double> v; for (int i = 0; i < n; i++) v.push_back(0.25 + i); return v; }
 
+namespace deep {
+std::vector<long> vecRetL(int n) { Guard g; std::vector<long> v; for (int i = 0; i < n; i++) v.push_back(7L * i); return v; }
+}
+
 // ---------------------------------------------------------------- extras (see simlib.hpp)
 std::vector<double> extraVecD(int n) { Guard g; return std::vector<double>(n > 0 ? n : 0, 1.5); }
 const std::string *extraStrOwned() { Guard g; std::string *s = new std::string("extra"); sim_handout(s, "string"); return s; }
